@@ -157,12 +157,13 @@ def _known_variant(dt):
     return _EQUIV.get(v, (v,))
 
 
-def outcomes(T, call_bb):
-    """Blocks entered on the Ok/Some(Continue) and Err/None(Break) edges of switches on the discriminant of the
-    result of the call in block call_bb (directly or through Try::branch). Returns (ok_entries, err_entries, switches)."""
+def outcome_edges(T, call_bb):
+    """Edges that reveal the outcome of the call in block call_bb: {(switch_bb, succ): 'ok'|'err'}.
+    Recognises switches on the discriminant of the result (directly or through Try::branch) and on
+    is_ok()/is_err()/is_some()/is_none() of a reference to it."""
     body = T.body
     ct = T.call_term(call_bb)
-    ok, err, sws = set(), set(), []
+    out = {}
     for bi, b in enumerate(body.blocks):
         if b['term']['k'] != 'switch':
             continue
@@ -170,24 +171,90 @@ def outcomes(T, call_bb):
         if sf is None:
             continue
         dt, edges = sf
-        if dt[0] != 'discr':
-            continue
-        x = dt[1]
-        if x[0] == 'call' and isinstance(x[1], str) and x[1].endswith('as core::ops::try_trait::Try>::branch'):
-            x = x[2][0]
-        if x[0] == 'load':
-            x = x[1]
-        if x != ct:
-            continue
-        sws.append(bi)
-        for succ, labs in edges.items():
-            for lab in labs:
-                if lab[0] == 'variant':
-                    if lab[1] in ('Ok', 'Some', 'Continue'):
-                        ok.add(succ)
-                    elif lab[1] in ('Err', 'None', 'Break'):
-                        err.add(succ)
-    return ok, err, sws
+        if dt[0] == 'discr':
+            x = dt[1]
+            if x[0] == 'call' and isinstance(x[1], str) and x[1].endswith('as core::ops::try_trait::Try>::branch'):
+                x = x[2][0]
+            if x[0] == 'load':
+                x = x[1]
+            if x != ct:
+                continue
+            for succ, labs in edges.items():
+                for lab in labs:
+                    if lab[0] == 'variant':
+                        if lab[1] in ('Ok', 'Some', 'Continue'):
+                            out[(bi, succ)] = 'ok'
+                        elif lab[1] in ('Err', 'None', 'Break'):
+                            out[(bi, succ)] = 'err'
+        elif dt[0] == 'call' and isinstance(dt[1], str) and len(dt[2]) == 1:
+            pol = None
+            if dt[1].endswith('::is_ok') or dt[1].endswith('::is_some'):
+                pol = True
+            elif dt[1].endswith('::is_err') or dt[1].endswith('::is_none'):
+                pol = False
+            if pol is None:
+                continue
+            a = dt[2][0]
+            if a[0] == 'ref':
+                a = a[1]
+            if a != ct:
+                continue
+            for succ, labs in edges.items():
+                for lab in labs:
+                    if lab[0] == 'bool':
+                        out[(bi, succ)] = 'ok' if lab[1] == pol else 'err'
+    return out
+
+
+def outcomes(T, call_bb):
+    """Blocks entered on the Ok/Some(Continue) and Err/None(Break) edges of the switches examining the result of the
+    call in block call_bb. Returns (ok_entries, err_entries, switches)."""
+    oe = outcome_edges(T, call_bb)
+    ok = set(s for (b, s), v in oe.items() if v == 'ok')
+    err = set(s for (b, s), v in oe.items() if v == 'err')
+    return ok, err, sorted(set(b for (b, s) in oe))
+
+
+def outcome_paths(T, call_bb, events, starts=None, unwind=False):
+    """Feasible paths from the call in call_bb to a return, tracking (a) what is known about the call's outcome from
+    the switches passed ('?' | 'ok' | 'err'; contradictory edges are pruned) and (b) how many blocks of each event
+    class were passed (saturating at 2). `events` maps class name -> set of blocks.
+    Returns set of (fact, ((class, count), ...)) observed at returns, plus the same at `resume` exits if unwind."""
+    body = T.body
+    oe = outcome_edges(T, call_bb)
+    names = sorted(events)
+
+    def node_events(bb):
+        return [('E', n) for n in names if bb in events[n]]
+
+    def edge_events(bb, s):
+        v = oe.get((bb, s))
+        return [('F', v)] if v else []
+
+    def delta(st, ev):
+        fact, counts = st
+        if ev[0] == 'F':
+            if fact == '?':
+                return (ev[1], counts)
+            if fact != ev[1]:
+                return None
+            return st
+        i = names.index(ev[1])
+        c = list(counts)
+        c[i] = min(c[i] + 1, 2)
+        return (fact, tuple(c))
+
+    init = ('?', tuple(0 for _ in names))
+    if starts is None:
+        starts = body.succs(call_bb, False)
+    out = set()
+    for s in starts:
+        res = TS.run(body, init, node_events, edge_events, delta, unwind=unwind, entry=s)
+        for (bb, k), ss in res.at_exit.items():
+            if k == 'return' or (unwind and k == 'resume'):
+                for st in ss:
+                    out.add((k, st[0], tuple(zip(names, st[1]))))
+    return out
 
 
 def reach(body, starts, stop=None, unwind=False):
